@@ -175,6 +175,16 @@ func parseInt64(numberString string) (string, int64, error) {
 	return "%v", num, err
 }
 
+// formatInt64 writes num in the spelling parseInt64 found (format is what it returned):
+// a negative number in a prefixed base has its sign in front of the prefix (-0x10, not 0x-10)
+func formatInt64(format string, num int64) string {
+	if num < 0 && format != "%v" {
+		magnitude := uint64(-(num + 1)) + 1
+		return "-" + fmt.Sprintf(format, magnitude)
+	}
+	return fmt.Sprintf(format, num)
+}
+
 func parseInt(numberString string) (int, error) {
 	_, parsed, err := parseInt64(numberString)
 
